@@ -277,7 +277,9 @@ func checkC03(c *Ctx, r *Report) {
 	absoluteValidated(c, r, "C03.R1.absolute-validated", "the zone parser emits names over the 255-octet limit that PackDomainName and IsDomainName refuse")
 	originQualified(c, r, "C03.R4.origin-qualified", "with an origin written without the root dot every relative owner, every relative RDATA name and `@` come back not fully qualified, and Pack refuses the records the parser returned")
 	absoluteResultGuarded(c, r, "C03.R1.absolute-guarded", "a name that IsDomainName refuses (empty label, 64-octet label, over 255 octets, dangling backslash) is accepted in that field and silently stored as the empty name")
-	borrowClause(c, r, c01R1, "C01.R1.unpack-seq", "C03.R3.name-unpack-errors", 28, "the unpack method of every type with a domain name returns the name unpacker's error", func(k string) bool { return withNames[k] }, func(d string) bool { return strings.Contains(d, "error result") || strings.Contains(d, "not called") || strings.Contains(d, "not found") }, "a name over 255 octets, a reserved label type, an overrunning label or a pointer loop in that field unpacks without an error, as an empty name")
+	borrowClause(c, r, c01R1, "C01.R1.unpack-seq", "C03.R3.name-unpack-errors", 28, "the unpack method of every type with a domain name returns the name unpacker's error", func(k string) bool { return withNames[k] }, func(d string) bool {
+		return strings.Contains(d, "error result") || strings.Contains(d, "not called") || strings.Contains(d, "not found")
+	}, "a name over 255 octets, a reserved label type, an overrunning label or a pointer loop in that field unpacks without an error, as an empty name")
 	borrow(c, r, c06R1, "C06.R1.absolute-names", "C03.R4.absolute-names", 30, "every name field a parse method sets ends up as toAbsoluteName(token, origin) on the success paths", nil, "a relative name in that field comes back not fully qualified and the packer refuses it")
 }
 
